@@ -46,6 +46,8 @@ type ChildCase struct {
 	// Raw: rawload mode hands this program (code, jt, jf, k) to seccomp(2) directly.
 	Raw [][4]uint32 `json:"raw,omitempty"`
 
+	// Env: extra environment of the child (runtime knobs such as GOGC=1, GODEBUG=asyncpreemptoff=1).
+	Env []string `json:"env,omitempty"`
 	// StraceInject: extra strace arguments (fault injection) used by the parent when the case runs under strace.
 	StraceInject []string     `json:"strace_inject,omitempty"`
 	Conc         *ConcCase    `json:"conc,omitempty"`
@@ -249,6 +251,7 @@ func RunChild(bin, mode string, c *ChildCase, strace bool, timeout time.Duration
 	var so, se bytes.Buffer
 	cmd.Stdout, cmd.Stderr = &so, &se
 	cmd.Env = append(os.Environ(), "GOTRACEBACK=single")
+	cmd.Env = append(cmd.Env, c.Env...)
 	if c.NNPCase != nil && c.NNPCase.PresetOnMain {
 		cmd.Env = append(cmd.Env, "VCHILD_LOCK_MAIN=1") // keeps the main goroutine on the main thread
 	}
@@ -473,3 +476,11 @@ func UnamePoke(release string) []string {
 	b = append(b, pad(release)...)
 	return []string{"-e", "inject=uname:poke_exit=@arg1=" + hex.EncodeToString(b)}
 }
+
+// RuntimeKnobs are environments that change the Go runtime's behaviour around the library's unsafe and scheduling
+// sensitive code without changing what the library must do.
+var RuntimeKnobs = [][]string{nil, {"GOGC=1"}, {"GODEBUG=asyncpreemptoff=1"}, {"GOGC=1", "GODEBUG=gcstoptheworld=1"}, {"GOMAXPROCS=1"}, {"GOMAXPROCS=2", "GOGC=5"}, {"GODEBUG=madvdontneed=1,sbrk=0", "GOGC=2"}}
+
+// RuntimeKnobsGC: only garbage-collector knobs (for children that spin in user space, where switching asynchronous
+// preemption off or forcing one P would merely starve the loader).
+var RuntimeKnobsGC = [][]string{nil, {"GOGC=1"}, {"GOGC=1", "GODEBUG=gcstoptheworld=1"}, {"GOGC=2", "GODEBUG=madvdontneed=1"}}
